@@ -40,6 +40,7 @@ def _clamps(prog, rep, qual, var, after_assign=True):
             continue
         n += 1
         lows, highs = [], []
+        discarded = []
         for s in _following(fn.node, node):
             if isinstance(s, ast.Assign) and \
                     isinstance(s.targets[0], ast.Subscript) and \
@@ -74,13 +75,17 @@ def _clamps(prog, rep, qual, var, after_assign=True):
                         hi_ = paths.src(mod, c.args[2]).replace(' ', '')
                         lows.append((lo_, lo_))
                         highs.append((hi_, hi_))
+                    elif isinstance(s, ast.Expr) and s.value is c:
+                        # np.clip(V, lo, hi) as a statement: the clamped copy
+                        # is thrown away, V itself is not clamped
+                        discarded.append(s)
         ok = len(lows) == 1 and len(highs) == 1
         if ok:
             ok = _same_bound(*lows[0]) and _same_bound(*highs[0])
         # found-but-wrong is the violation (one side only, or bounds that do
         # not match); no clamp recognised at all (a helper, np.where, ...)
         # is not decided here
-        none_found = not lows and not highs
+        none_found = not lows and not highs and not discarded
         rep.add('P-two-sided', qual, 'clamps after %s'
                 % paths.src(mod, node)[:60], 'ok' if ok else (
                     'unknown' if none_found else 'violation'),
